@@ -33,7 +33,7 @@ def tie(rep, tier, rng, model_ok):
     q = tier == "quick"
     cases = taskgen.gen(rng, 2500 if q else 50000)
     cases = [c for c in cases if "cancel" in c or "dropr" in c or "droptok" in c]
-    taskprops.run_tasks(rep, "task-cancel-schedules", cases)
+    taskprops.run_tasks(rep, "task-cancel-schedules", cases, model_ok=model_ok)
     n = 120 if q else 3000
     benches = [simgen.gen_fault(rng) for _ in range(n)] + [simgen.gen_deadlock(rng) for _ in range(n)] + \
               [simgen.gen_net(rng, hier=True) for _ in range(n)] + [simgen.gen_sched(rng) for _ in range(n)]
